@@ -262,8 +262,9 @@ class Typer(object):
     language's scoping: a variable lives in the block whose statement first assigns / selects / creates it
     (the control variable of `for each` in the block that holds the loop)."""
 
-    def __init__(self, home):
+    def __init__(self, home, text):
         self.home = home
+        self.text = text + '\n'      # what oal.parse lexes
         self.scopes = [dict()]
         self.sel = []               # classes `selected` denotes (where clauses)
         self.values = {}            # (line, col, endcol) -> (rule, type)
@@ -276,6 +277,18 @@ class Typer(object):
         self.evdata = set()         # indices into self.params that are event data lists
         self.chains = []            # per select-related: ((line, col) of the statement, [(kl, rel, phrase)])
         self.cur_stmt = None
+
+    def at(self, pos):
+        """(line, start column, end column) of a node, computed HERE from the text and the node's character offsets
+        (start_stream, end_stream), not taken from the parser's own line / column fields: line = 1 + line breaks
+        before the first character; start column = distance of the first character from the line break before IT;
+        end column = distance of the LAST character from the line break before the last character (a node that
+        spans lines ends in another line than it starts in)"""
+        a, b = pos[0], pos[3]
+        line = self.text.count('\n', 0, a) + 1
+        start = a - self.text.rfind('\n', 0, a)
+        end = b - self.text.rfind('\n', 0, b) - 1
+        return (line, start, end)
 
     # -- environment
     def lookup(self, name):
@@ -315,7 +328,7 @@ class Typer(object):
         head = str(b[0])
         rule, ty = self._expr(head, b)
         if pos is not None:
-            key = (pos[1], pos[2], pos[5])
+            key = self.at(pos)
             if key in self.values:
                 self.ambiguous.add(key)
             self.values[key] = (rule, ty)
@@ -421,7 +434,7 @@ class Typer(object):
             _, pb = _unwrap(par)
             ppos, _ = _unwrap(pb[2])
             self.expr(pb[2])
-            poss.append((ppos[1], ppos[2], ppos[5]))
+            poss.append(self.at(ppos))
         self.params.append(poss)
 
     # -- statements
@@ -437,7 +450,7 @@ class Typer(object):
         self.lists.append(starts)
         for st in sl[1:]:
             pos, _ = _unwrap(st)
-            starts.append((pos[1], pos[2]))
+            starts.append(self.at(pos)[:2])
             self.stmt(st)
 
     def where(self, kl, x):
@@ -452,9 +465,9 @@ class Typer(object):
     def stmt(self, x):
         pos, b = _unwrap(x)
         head = str(b[0])
-        self.stmts.append((pos[1], pos[2], pos[5]))
+        self.stmts.append(self.at(pos))
         outer = self.cur_stmt
-        self.cur_stmt = (pos[1], pos[2])
+        self.cur_stmt = self.at(pos)[:2]
         if head == 'AssignmentNode':
             rty = self.expr(b[2])
             _, lb = _unwrap(b[1])
@@ -479,7 +492,7 @@ class Typer(object):
             for s in ch[1:]:
                 _, sb = _unwrap(s)
                 steps.append((sb[1], sb[2], sb[3]))
-            self.chains.append(((pos[1], pos[2]), steps))
+            self.chains.append((self.at(pos)[:2], steps))
             self.expr(b[3])
             dst = steps[-1][0]
             self.target(b[2], 'ins' if b[1].lower() == 'many' else 'int', dst)
@@ -498,12 +511,12 @@ class Typer(object):
             _, el = _unwrap(b[3])
             for e in el[1:]:
                 epos, eb = _unwrap(e)
-                self.stmts.append((epos[1], epos[2], epos[5]))
+                self.stmts.append(self.at(epos))
                 self.expr(eb[1])
                 self.block(eb[2])
             if b[4] != 'none':
                 spos, sb = _unwrap(b[4])
-                self.stmts.append((spos[1], spos[2], spos[5]))
+                self.stmts.append(self.at(spos))
                 self.block(sb[1])
         elif head == 'InvocationStatementNode':
             self.expr(b[1])
@@ -585,7 +598,7 @@ def run_multi(case):
             'state': lambda h: one(h).ACT_SAB[691].ACT_ACT[698]()}
     nst = 0
     for hn in hns:
-        ty = Typer(hn)
+        ty = Typer(hn, texts[hn])
         enc = oal_sexp.encode(rig.parse(texts[hn]), positions=True)
         _, b = _unwrap(enc)
         _, blk = _unwrap(b[1])
@@ -654,7 +667,7 @@ def run_impl(case):
         if len(fails) < 4:
             fails.append({'sig': sig, 'what': '%s\n--- %s home\n%s' % (what, case['home'], text)})
 
-    ty = Typer(case['home'])
+    ty = Typer(case['home'], text)
     _, body = _unwrap(enc)
     _, blk = _unwrap(body[1])
     _, sl = _unwrap(blk[1])
